@@ -25,7 +25,7 @@
 
 extern char** environ;
 
-#define DATA_PAGES 4
+#define DATA_PAGES 8
 #define PRE 64
 static unsigned char* region;
 static unsigned char* guard;
